@@ -1,6 +1,7 @@
 pub mod c04;
 pub mod c05;
 pub mod c17;
+pub mod c19;
 
 use crate::runner::Scenario;
 
@@ -9,8 +10,9 @@ pub fn by_id(id: &str) -> Option<Box<dyn Scenario>> {
         "C04" => Some(Box::new(c04::C04)),
         "C05" => Some(Box::new(c05::C05)),
         "C17" => Some(Box::new(c17::C17)),
+        "C19" => Some(Box::new(c19::C19)),
         _ => None,
     }
 }
 
-pub const ALL: &[&str] = &["C04", "C05", "C17"];
+pub const ALL: &[&str] = &["C04", "C05", "C17", "C19"];
